@@ -460,6 +460,11 @@ def gc3(F, R):
     for e in evs:
         n += 1
         if requires(e.facts, lambda s: is_pers_discr_of(s, reader), {"Stored"}) is None:
+            # `persistence := Taken` where it is Stored or already Taken changes nothing on a repeated read
+            if e.kind == "pers_write" and variant_of(e.val) == "Taken" and \
+                    requires(e.facts, lambda s: is_pers_discr_of(s, reader), {"Stored", "Taken"}) is not None and \
+                    pers_fact_is_prestate(requires(e.facts, lambda s: is_pers_discr_of(s, reader), {"Stored", "Taken"}), body, [e]):
+                continue
             R.bad("GC3", "GC3/Sodg::data/effect-outside-first-read/%s" % e.kind, e.where(),
                   "data() changes graph state on a path that is not the first read of a stored datum (%s)" % e.kind,
                   {"guards": show_facts(e.facts, e.body)})
